@@ -42,14 +42,16 @@ Positions(n) == {-BIG - 1, -BIG, BIG} \cup (-1..(n + 2))
 Pos2(n) == {-BIG - 1, BIG} \cup (-1..(n + 1))
 
 (* a result: k = "ok" (r = returned values, t = final content of the (first) table, u = of the second
-   table when two = 1), "error" (an error is raised; the final content is not compared) or "resource"
-   (legal but needs ~BIG steps: not run).  g = class of the case where it depends on the result.
+   table when n = 1), "error" (an error is raised; the final content is not compared), "resource"
+   (legal but needs ~BIG steps: not run) or "unspec" (the manual's precondition is violated and it does
+   not say what happens: the call is run, it must end - with or without an error - and not crash).  g = class of the case where it depends on the result.
    All fields always have the same type. *)
 Tag(res, g) == [res EXCEPT !.g = g]
 Res(r, t) == [k |-> "ok", r |-> r, t |-> Pairs(t), u |-> {}, n |-> 0, g |-> ""]
 Res2(r, t, u) == [k |-> "ok", r |-> r, t |-> Pairs(t), u |-> Pairs(u), n |-> 1, g |-> ""]
 Err == [k |-> "error", r |-> <<>>, t |-> {}, u |-> {}, n |-> 0, g |-> ""]
 Resource == [k |-> "resource", r |-> <<>>, t |-> {}, u |-> {}, n |-> 0, g |-> ""]
+Unspec == [k |-> "unspec", r |-> <<>>, t |-> {}, u |-> {}, n |-> 0, g |-> ""]
 
 (***************************************************************************)
 (* table.insert (list, [pos,] value): "Inserts element value at position   *)
@@ -88,16 +90,17 @@ Remove(t, args) ==
 (* default for a2 is a1.  The destination range can overlap with the       *)
 (* source range.  The number of elements to be moved must fit in a Lua     *)
 (* integer.  Returns the destination table a2."  It is a multiple          *)
-(* assignment: every source element is the ORIGINAL one.  A destination    *)
-(* index beyond maxinteger does not exist: error.                          *)
+(* assignment: every source element is the ORIGINAL one.  What happens     *)
+(* when the number does not fit, or when a destination index would exceed  *)
+(* maxinteger, is not said (the reference implementation raises an error). *)
 (***************************************************************************)
 Move(a1, d, f, e, tp) ==    \* d = [same |-> a2 is absent, q |-> the list a2 otherwise]
   LET same == d.same
       dst == IF same THEN a1 ELSE d.q
       cnt == e - f + 1
   IN IF e < f THEN (IF same THEN Res(<<"dest">>, a1) ELSE Res2(<<"dest">>, a1, dst))
-     ELSE IF cnt > BIG THEN Err
-     ELSE IF tp > BIG - cnt + 1 THEN Err
+     ELSE IF cnt > BIG THEN Unspec
+     ELSE IF tp > BIG - cnt + 1 THEN Unspec
      ELSE IF cnt > 1000 THEN Resource
      ELSE LET d2 == Mk((DOMAIN dst) \cup (tp..(tp + cnt - 1)),
                        LAMBDA k : IF k >= tp /\ k < tp + cnt THEN Get(a1, f + (k - tp)) ELSE Get(dst, k))
